@@ -174,7 +174,7 @@ func dropFieldLines(text, field string) string {
 
 var specC09Scalars = Register(&Spec[ScalarsCase]{
 	Prop: "C09", Name: "scalars",
-	Rule: "values of a probe struct with string, int (full range), uint (full range incl. > MaxInt64), bool, renamed (control:\"X-Renamed\"), required (one possibly empty, one always empty), skipped (control:\"-\", on a string member and on a struct-kind member whose own members are named like document fields), unexported members (string, version.Version, sync.Mutex: neither written nor read), multiline:\"true\" and plain multi-line string fields; strings are single lines without surrounding blanks, multi-line texts are C08 line sequences. Oracle: Unmarshal(Marshal(x)) == x field by field (multi-line strings up to one trailing newline, skipped field stays zero); in the emitted paragraph optional fields with empty rendering are absent, required ones present; removing a required field's lines makes Unmarshal fail. Non-trivial: >= 3 non-zero fields; distinct by value.",
+	Rule: "values of a probe struct with string, int (full range), uint (full range incl. > MaxInt64), bool, renamed (control:\"X-Renamed\"), required (one possibly empty, one always empty), skipped (control:\"-\", on a string member and on a struct-kind member whose own members are named like document fields), unexported members (string, version.Version, sync.Mutex: neither written nor read), multiline:\"true\" and plain multi-line string fields; strings are single lines without surrounding blanks, multi-line texts are C08 line sequences. Oracle: Unmarshal(Marshal(x)) == x field by field (multi-line strings up to one trailing newline, skipped field stays zero); in the emitted paragraph optional fields with empty rendering are absent, required ones present; removing a required field's lines makes Unmarshal fail; three values (full, required-only, partial) marshalled as one slice read back as three values none of which carries a neighbour's fields. Non-trivial: >= 3 non-zero fields; distinct by value.",
 	Check: func(c ScalarsCase, r *Recorder) error {
 		nz := 0
 		for _, s := range []string{c.Str, c.Renamed, c.Req, c.Multi, c.Text} {
@@ -266,6 +266,23 @@ var specC09Scalars = Register(&Spec[ScalarsCase]{
 		}
 		if !reflect.DeepEqual(&viaPara, &wantVia) {
 			return errf("ConvertToParagraph/UnpackFromParagraph changed the value: %+v became %+v", wantVia, viaPara)
+		}
+		// several values through one call: what a later paragraph leaves out must not be filled in
+		// from an earlier one
+		bare := probeScalars{Req: "r"}
+		texts, err := marshalToText([]probeScalars{{Str: x.Str, Num: x.Num, UNum: x.UNum, Flag: x.Flag, Renamed: x.Renamed, Req: x.Req, Multi: x.Multi, Text: x.Text}, bare, {Str: x.Str, Req: x.Req, Text: x.Text}})
+		if err != nil {
+			return errf("Marshal of a slice of three values failed: %v", err)
+		}
+		var ys []probeScalars
+		if err := control.Unmarshal(&ys, strings.NewReader(texts)); err != nil || len(ys) != 3 {
+			return errf("Unmarshal of three marshalled values %q gives %d values, err %v", texts, len(ys), err)
+		}
+		if ys[1].Str != "" || ys[1].Renamed != "" || ys[1].Num != 0 || ys[1].UNum != 0 || ys[1].Flag || ys[1].Multi != "" || ys[1].Text != "" || ys[1].Req != "r" {
+			return errf("the second of three values was written with only its required fields (%q) but reads back as %+v: fields of its neighbour leaked into it", texts, ys[1])
+		}
+		if ys[2].Str != x.Str || ys[2].Renamed != "" || ys[2].Num != 0 || ys[2].Multi != "" || !sameUpToTrailingNewline(ys[2].Text, x.Text) || ys[0].Str != x.Str || ys[0].Renamed != x.Renamed || ys[0].Num != x.Num {
+			return errf("three values written as %q read back as %+v", texts, ys)
 		}
 		for _, req := range []string{"Req", "Req-Empty"} {
 			var z probeScalars
@@ -498,6 +515,27 @@ var specC09Lists = Register(&Spec[ListsCase]{
 		}
 		if !strSliceEq(y.Words, c.Words) || !strSliceEq(y.Commas, c.Commas) || !strSliceEq(y.Loose, c.Loose) || !strSliceEq(y.Lines, c.Lines) {
 			return errf("string lists changed: wrote %q %q %q %q as %q, read %q %q %q %q", c.Words, c.Commas, c.Loose, c.Lines, text, y.Words, y.Commas, y.Loose, y.Lines)
+		}
+		// a slice of values: full, empty, full
+		if ltext, err := marshalToText([]probeLists{x, {}, x}); err == nil {
+			var ls []probeLists
+			if err := control.Unmarshal(&ls, strings.NewReader(ltext)); err != nil || len(ls) != 3 {
+				return errf("Unmarshal of three marshalled list probes %q gives %d values, err %v", ltext, len(ls), err)
+			}
+			if len(ls[1].Words)+len(ls[1].Commas)+len(ls[1].Loose)+len(ls[1].Lines)+len(ls[1].Archs)+len(ls[1].MD5s)+len(ls[1].SHA256s)+len(ls[1].Nums)+len(ls[1].ReqWords)+len(ls[1].ReqNums)+len(ls[1].ReqVers) != 0 || ls[1].Ver != (version.Version{}) || len(ls[1].Dep.Relations) != 0 {
+				return errf("the empty second of three list probes (%q) reads back non-empty: %+v", ltext, ls[1])
+			}
+			if !strSliceEq(ls[0].Words, c.Words) || !strSliceEq(ls[2].Words, c.Words) || !strSliceEq(ls[0].ReqWords, c.ReqWords) || !strSliceEq(ls[2].Commas, c.Commas) || len(ls[2].Archs) != len(c.Archs) || len(ls[0].MD5s) != len(c.MD5s) {
+				return errf("three list probes written as %q read back with different lists", ltext)
+			}
+			// values decoded earlier stay what they were when later ones are filled in
+			for i := range c.Words {
+				if ls[0].Words[i] != c.Words[i] {
+					return errf("element %d of the first value's Words changed to %q after the later values were decoded", i, ls[0].Words[i])
+				}
+			}
+		} else {
+			return errf("Marshal of a slice of list probes failed: %v", err)
 		}
 		// the same variable decoded into a second time: a list the document carries replaces the
 		// member's previous content, it is not appended to it
